@@ -267,6 +267,16 @@ func (r *rewriter) walk(n ast.Node, _ bool) {
 				x.Init = r.stmt(x.Init)
 			}
 		case *ast.CallExpr:
+			if id, ok := x.Fun.(*ast.Ident); ok && id.Name == "close" && len(x.Args) == 1 && !r.external {
+				if _, isBuiltin := r.info.Uses[id].(*types.Builtin); isBuiltin && !r.outsideWorldChan(x.Args[0]) {
+					if tv, ok := r.info.Types[x.Args[0]]; ok {
+						if c, ok := tv.Type.Underlying().(*types.Chan); ok && c.Dir() == types.SendRecv {
+							x.Fun = r.vs("Close")
+							r.site(x, "chan.close")
+						}
+					}
+				}
+			}
 			// context constructors
 			if sel, ok := x.Fun.(*ast.SelectorExpr); ok && !r.external {
 				if id, ok := sel.X.(*ast.Ident); ok {
@@ -417,7 +427,30 @@ func (r *rewriter) stmt(s ast.Stmt) ast.Stmt {
 		case *types.Map:
 			return r.mapRange(x)
 		case *types.Chan:
-			r.err = fmt.Errorf("%s: range over channel is not supported by the rewriter", r.fset.Position(x.Pos()))
+			if r.outsideWorldChan(x.X) {
+				return s
+			}
+			// for v := range ch { B }  ==>  for { v, ok_ := vsched.RecvOK(ch); if !ok_ { break }; B }
+			r.site(x, "chan.range")
+			r.tmpN++
+			ok := ast.NewIdent(fmt.Sprintf("vok%d_", r.tmpN))
+			var v ast.Expr = ast.NewIdent("_")
+			tok := token.DEFINE
+			if x.Key != nil {
+				v, tok = x.Key, x.Tok
+			}
+			if tok == token.ASSIGN {
+				// v already declared: declare only ok_
+				pre := &ast.DeclStmt{Decl: &ast.GenDecl{Tok: token.VAR, Specs: []ast.Spec{&ast.ValueSpec{Names: []*ast.Ident{ok}, Type: ast.NewIdent("bool")}}}}
+				recv := &ast.AssignStmt{Lhs: []ast.Expr{v, ok}, Tok: token.ASSIGN, Rhs: []ast.Expr{&ast.CallExpr{Fun: r.vs("RecvOK"), Args: []ast.Expr{x.X}}}}
+				brk := &ast.IfStmt{Cond: &ast.UnaryExpr{Op: token.NOT, X: ok}, Body: &ast.BlockStmt{List: []ast.Stmt{&ast.BranchStmt{Tok: token.BREAK}}}}
+				x.Body.List = append([]ast.Stmt{pre, recv, brk}, x.Body.List...)
+				return &ast.ForStmt{Body: x.Body}
+			}
+			recv := &ast.AssignStmt{Lhs: []ast.Expr{v, ok}, Tok: token.DEFINE, Rhs: []ast.Expr{&ast.CallExpr{Fun: r.vs("RecvOK"), Args: []ast.Expr{x.X}}}}
+			brk := &ast.IfStmt{Cond: &ast.UnaryExpr{Op: token.NOT, X: ok}, Body: &ast.BlockStmt{List: []ast.Stmt{&ast.BranchStmt{Tok: token.BREAK}}}}
+			x.Body.List = append([]ast.Stmt{recv, brk}, x.Body.List...)
+			return &ast.ForStmt{Body: x.Body}
 		}
 	}
 	return s
@@ -464,7 +497,7 @@ func (r *rewriter) selectStmt(x *ast.SelectStmt) ast.Stmt {
 		case nil, *ast.SendStmt:
 		default:
 			ch, _ := recvOf(st)
-			if ch == nil || !isCtxDone(ch) {
+			if ch == nil || (!isCtxDone(ch) && r.outsideWorldChan(ch)) {
 				return nil
 			}
 		}
@@ -504,13 +537,40 @@ func (r *rewriter) selectStmt(x *ast.SelectStmt) ast.Stmt {
 		}
 		sw.Body.List = append(sw.Body.List, clause)
 	}
-	if def != nil {
-		def.List = []ast.Expr{&ast.BasicLit{Kind: token.INT, Value: fmt.Sprint(n)}}
-		sw.Body.List = append(sw.Body.List, def)
+	// the default clause of the switch keeps a select that ends a function a terminating
+	// statement (Select returns len(cases) for the original default, and never for a select
+	// without one)
+	if def == nil {
+		def = &ast.CaseClause{Body: []ast.Stmt{&ast.ExprStmt{X: &ast.CallExpr{Fun: ast.NewIdent("panic"), Args: []ast.Expr{&ast.BasicLit{Kind: token.STRING, Value: `"vsched: select without default returned no clause"`}}}}}}
 	}
+	sw.Body.List = append(sw.Body.List, def)
 	sw.Init = &ast.AssignStmt{Lhs: []ast.Expr{res}, Tok: token.DEFINE, Rhs: []ast.Expr{&ast.CallExpr{Fun: r.vs("Select"), Args: args}}}
 	sw.Tag = &ast.SelectorExpr{X: res, Sel: ast.NewIdent("I")}
 	return sw
+}
+
+// outsideWorldChan: a channel that is fed from outside the scheduler (timers, signals, the
+// file watcher); operations on it cannot be modelled.
+func (r *rewriter) outsideWorldChan(ch ast.Expr) bool {
+	if call, ok := ch.(*ast.CallExpr); ok {
+		if sel, ok := call.Fun.(*ast.SelectorExpr); ok {
+			if id, ok := sel.X.(*ast.Ident); ok {
+				if pn, ok := r.info.Uses[id].(*types.PkgName); ok && pn.Imported().Path() == "time" {
+					return true
+				}
+			}
+		}
+	}
+	tv, ok := r.info.Types[ch]
+	if !ok || tv.Type == nil {
+		return true
+	}
+	c, ok := tv.Type.Underlying().(*types.Chan)
+	if !ok {
+		return true
+	}
+	el := c.Elem().String()
+	return strings.Contains(el, "os.Signal") || strings.Contains(el, "fsnotify") || strings.Contains(el, "time.Time")
 }
 
 func simpleExpr(e ast.Expr) bool {
